@@ -195,6 +195,16 @@ func ReflectorRejects[S, A any](h *H, l optics.Reflector[A], decoys ...any) {
 	v := Draw[A](h.RT)
 	var nilA *A
 	args := append([]any{*p, pp, nilA, nil, unsafe.Pointer(p), uintptr(unsafe.Pointer(p)), new(A), 42, "s"}, decoys...)
+	// composites whose element type is the container: reflect's Elem() and pointer accessors are defined for them too
+	st := reflect.TypeOf(p).Elem()
+	sl := reflect.MakeSlice(reflect.SliceOf(st), 1, 2)
+	arr := reflect.New(reflect.ArrayOf(1, st))
+	mp := reflect.MakeMapWithSize(reflect.MapOf(reflect.TypeOf(""), st), 1)
+	mp.SetMapIndex(reflect.ValueOf("k"), reflect.Zero(st))
+	args = append(args, sl.Interface(), arr.Interface(), arr.Elem().Interface(), mp.Interface(),
+		reflect.MakeChan(reflect.ChanOf(reflect.BothDir, st), 1).Interface(),
+		reflect.MakeSlice(reflect.SliceOf(reflect.TypeOf(p)), 1, 1).Interface(),
+		reflect.Zero(reflect.FuncOf(nil, []reflect.Type{reflect.TypeOf(p)}, false)).Interface())
 	before := ar.Snapshot()
 	for _, a := range args {
 		if reflect.TypeOf(a) == reflect.TypeOf(p) {
